@@ -38,10 +38,10 @@ CLASS_MEMBERS = {32: b"\t \x0b", 49: b"0234567", 56: b"89", 97: b"cdeACDE", 98: 
 
 CONFIGS = {
     "quick": [("Alpha24", 3, (1, 2, 4)), ("AlphaString", 4, (1, 2, 3, 5)), ("AlphaHexName", 4, (1, 2, 3, 5)),
-              ("AlphaNumKw", 4, (1, 2, 3, 5)), ("AlphaComment", 5, (1, 2, 3, 6)), ("AlphaEsc", 5, (1, 2, 3, 6)), ("AlphaOct", 5, (1, 2, 3, 6))],
+              ("AlphaNumKw", 4, (1, 2, 3, 5)), ("AlphaComment", 5, (1, 2, 3, 6)), ("AlphaEsc", 5, (1, 2, 3, 6)), ("AlphaOct", 5, (1, 2, 3, 6)), ("AlphaOctEol", 5, (1, 2, 4, 6))],
     "thorough": [("Alpha24", 4, (1, 2, 5)), ("AlphaString", 5, (1, 2, 3, 6)), ("AlphaHexName", 5, (1, 2, 3, 6)),
                  ("AlphaNumKw", 5, (1, 2, 3, 6)), ("AlphaComment", 6, (1, 2, 3, 7)),
-                 ("AlphaString", 6, (2, 7)), ("AlphaEsc", 7, (1, 2, 3, 8)), ("AlphaOct", 7, (1, 2, 3, 8))],
+                 ("AlphaString", 6, (2, 7)), ("AlphaEsc", 7, (1, 2, 3, 8)), ("AlphaOct", 7, (1, 2, 3, 8)), ("AlphaOctEol", 7, (1, 2, 4, 8))],
 }
 
 
@@ -95,6 +95,7 @@ def direction_a(ck, dev):
                         "AlphaComment": ["ARefill", "AFlush", "AMain", "AComment", "AString", "AKeyword"],
                         "AlphaEsc": ["ARefill", "AFlush", "AMain", "AString", "AString1", "AStringLF", "AKeyword"],
                         "AlphaOct": ["ARefill", "AFlush", "AMain", "AString", "AString1", "ANumber"],
+                        "AlphaOctEol": ["ARefill", "AFlush", "AMain", "AString", "AString1", "AStringLF", "ANumber"],
                         "AlphaString": ["ARefill", "AFlush", "AMain", "AString", "AString1", "ANumber", "AKeyword"],
                         "AlphaHexName": ["ARefill", "AFlush", "AMain", "ALiteral", "ALitHex", "AWOpen", "AWClose", "AHexStr"],
                         "AlphaNumKw": ["ARefill", "AFlush", "AMain", "ANumber", "AFloat", "AKeyword", "AComment", "ALiteral"]}[alpha]
